@@ -326,7 +326,7 @@ SCOPE_PROBES = ['x@a!b %c\n~d', '!a@ %\\a~', 'a%b\nc@']
 
 def scope_sequences(maxlen):
     """every well-nested sequence of push / pop / set_i of length <= maxlen (pop only when a group is open)"""
-    ops = ['push', 'pop'] + list(range(len(SCOPE_CHANGES)))
+    ops = ['push', 'pop', 'verb'] + list(range(len(SCOPE_CHANGES)))
     out = []
 
     def rec(seq, depth):
@@ -354,6 +354,9 @@ def judge_scope(seq, probe):
         elif o == 'pop':
             ctx.pop()
             stack.pop()
+        elif o == 'verb':
+            ctx.setVerbatimCatcodes()
+            stack[-1] = cat_map('verbatim')
         else:
             ch, code = SCOPE_CHANGES[o]
             ctx.catcode(ch, code)
